@@ -362,6 +362,17 @@ func (c *Cluster) onFastForwardDone(a *SimNode, err error) {
 		if debugTrace {
 			fmt.Fprintf(os.Stderr, "  fast-forward of node %d failed: %v\n", a.idx, err)
 		}
+		// a fast-forward that fails must leave the node as it was; one that wiped
+		// the store and then gave up leaves a node with neither its old chain nor
+		// an anchor (honest responders only: hostile responses are C12's subject)
+		if a.running() && !c.hostileSeen && c.cfg.Byz == 0 && a.blocksBeforeFF >= 0 {
+			func() {
+				defer func() { recover() }()
+				if a.node.GetLastBlockIndex() < 0 {
+					c.violate("C13", "reset-completes", "reset-failed-halfway", "node %d: fast-forward from an honest peer failed (%v) after the store had been wiped: the node had blocks up to %d, now it has none and no anchor", a.idx, err, a.blocksBeforeFF)
+				}
+			}()
+		}
 		return
 	}
 	if !a.running() {
